@@ -26,10 +26,12 @@ def base_cfg(todo_p, todo_q, todo_s, msg):
             "n": {"constructor": "fx.NewC", "arguments": ["%p%", "%c%"], "scope": "non_shared"}}
     # a message may contain anything a Go string literal can: parentheses, commas
     params["pp"] = '%todo("ask ops (see wiki/secrets, section 2)")%' if (todo_p or todo_q) else "plain"
+    # a parameter that is nothing but another parameter: it must follow an override of its target as long as it was not evaluated
+    params["al"] = "%p%"
     return {"meta": {"pkg": "gen", "imports": {"fx": gen.FX}, "functions": {"myfn": "fx.Fn1"}}, "parameters": params, "services": svcs}
 
 
-OPS = [["param", "p"], ["param", "q"], ["param", "c"], ["param", "pp"], ["get", "s"], ["get", "u"], ["get", "n"],
+OPS = [["param", "p"], ["param", "q"], ["param", "c"], ["param", "pp"], ["param", "al"], ["get", "s"], ["get", "u"], ["get", "n"],
        ["ovparam", "p", {"k": "str", "v": "P2"}], ["ovparam", "q", {"k": "int", "v": 7}], ["ovservice", "s", {"k": "obj", "v": "S2"}]]
 
 
@@ -70,7 +72,7 @@ def run(ctx, maxlen=None):
                 if len(corr_fail) < 10:
                     corr_fail.append({"op": "rt:history", "files": files, "history": oa, "at": x[0], "impl": x[1], "model": x[2]})
         # direct oracle
-        ovp, ovs = {}, False
+        ovp, ovs, al_done = {}, False, False
         c0 = impl[0]["ok"].get("probe/fx.Fn1", 0)
         c1 = impl[-1]["ok"].get("probe/fx.Fn1", 0)
         uses_c = sum(1 for o in oa if o in (["param", "c"], ["get", "n"]))
@@ -82,6 +84,15 @@ def run(ctx, maxlen=None):
                 ovp[o[1]] = o[2]["v"]
             elif o[0] == "ovservice":
                 ovs = True
+            elif o[0] == "param" and o[1] == "al":
+                # the alias of p: once p is overridden and the alias has not been evaluated successfully before, it is the override
+                if "p" in ovp and not al_done:
+                    if r.get("ok", {}).get("v") != ovp["p"]:
+                        violations.append({"sig": "override-not-visible", "what": "GetParam(al) (al is %%p%%) after OverrideParam(p) returns %r, not the overriding value" % (r,), "files": files, "history": oa})
+                elif "p" not in ovp and isinstance(cfg["parameters"]["p"], str) and cfg["parameters"]["p"].startswith("%todo("):
+                    if "err" not in r:
+                        violations.append({"sig": "todo-param-no-error", "what": "GetParam(al) whose target p is a todo parameter: %r" % (r,), "files": files, "history": oa})
+                al_done = al_done or "ok" in r
             elif o[0] == "param":
                 raw = cfg["parameters"][o[1]]
                 if o[1] in ovp:
